@@ -20,6 +20,7 @@ import (
 var (
 	DatasetNotFoundErr      error = errors.New("Dataset not found")
 	DatasetAlreadyExistsErr error = errors.New("Dataset already exists")
+	InvalidDatasetErr       error = errors.New("Invalid dataset: dimension, partition count and replication factor must be positive and the space must be known")
 )
 
 type DatasetManager struct {
@@ -106,6 +107,10 @@ func (this *DatasetManager) Get(id uuid.UUID) (*Dataset, error) {
 func (this *DatasetManager) Create(ctx context.Context, dataset *pb.Dataset) (*Dataset, error) {
 	ctx, cancelCtx := context.WithTimeout(ctx, 1*time.Second)
 	defer cancelCtx()
+
+	if _, knownSpace := pb.Space_name[int32(dataset.GetSpace())]; !knownSpace || dataset.GetDimension() == 0 || dataset.GetPartitionCount() == 0 || dataset.GetReplicationFactor() == 0 {
+		return nil, InvalidDatasetErr
+	}
 
 	id := uuid.NewV4()
 	dataset.Id = id.Bytes()
